@@ -259,7 +259,7 @@ func g2Exprs() []string {
 		"string-length(a) mod 2", "substring('abc', 1, 2)", "a[last()]", "a[position() < 3]", "a[1 + 1]", "*[self::a or self::b]", "self::node()", "parent::node()/a",
 		"following-sibling::*[1]", "preceding::node()", "a/text()", "a//text()", "normalize-space()", "string()", "number(a) + number(b)", "a[string-length() > 1]",
 		"-a", "--a", "- - a", "a - -b", "a--b", "1--1", "a*-1", "-a*b", "a[-1]", "div", "mod", "and", "or", "div div div", "and and and", "or or or", "mod mod mod",
-		"a/div", "div/a", "@div", "child::or", "or/and", "a[div]", "text", "node", "comment", "text/node", "a/text", "count(text)", "$x", "$x + 1", "$x/a", "a[$x]",
+		"a/div", "div/a", "@div", "/div", "/div/p", "/and", "/or/a", "/mod", "//div", "//or/and", "/div div /div", "/ div", "div", "/child::div", "(/div)", "count(/div)", "/div[mod]", "a[/and]", "child::or", "or/and", "a[div]", "text", "node", "comment", "text/node", "a/text", "count(text)", "$x", "$x + 1", "$x/a", "a[$x]",
 	}
 	return base
 }
